@@ -48,12 +48,23 @@ func compilePolicy(le bool, archName string, p *seccomp.Policy) (res string) {
 			res = "PANIC"
 		}
 	}()
-	ai, ok := allArches[archName]
-	if !ok {
-		panic("unknown arch " + archName)
-	}
 	setEndian(le)
-	seccomp.SetArchVerif(p, ai)
+	// "A>B": the same policy VALUE is first assembled for architecture A (result ignored), then for B
+	if i := strings.Index(archName, ">"); i >= 0 {
+		if first, ok := allArches[archName[:i]]; ok {
+			seccomp.SetArchVerif(p, first)
+			p.Assemble()
+		}
+		archName = archName[i+1:]
+	}
+	// "NATIVE": the architecture is left unset, the library resolves it itself (arch.GetInfo of the build's GOARCH)
+	if archName != "NATIVE" {
+		ai, ok := allArches[archName]
+		if !ok {
+			panic("unknown arch " + archName)
+		}
+		seccomp.SetArchVerif(p, ai)
+	}
 	insts, err := p.Assemble()
 	if err != nil {
 		if insts != nil {
